@@ -197,6 +197,18 @@ func c17R1(p *Prog, r *Report) {
 				r.Check(okMin, rule, fmt.Sprintf("dns.(*resultBuilder).parseMsg:expiry-is-minimum@%s", exprStr(v.Node)), p.posStr(sel.Pos()),
 					"the expiry is stored only when unset or when the new value is earlier",
 					"the expiry is overwritten unconditionally ("+exprStr(v.Node)+"): depending on which response is parsed last, the cached result outlives the smallest TTL of its answers")
+				// … and it IS stored then: the only way around the store is the edge on which the
+				// expiry already set is not after the new value
+				if as, isAs := v.Node.(*ast.AssignStmt); isAs && len(as.Lhs) == 1 && len(as.Rhs) == 1 && okMin {
+					okTaken, why := expiryMinTaken(pm, v.ID, exprStr(as.Rhs[0]))
+					okText := "the store is passed over only when the expiry already set is not after the new value"
+					if okTaken && why != "" {
+						okText = why
+					}
+					r.Check(okTaken, rule, fmt.Sprintf("dns.(*resultBuilder).parseMsg:earlier-expiry-is-taken@%s", exprStr(v.Node)), p.posStr(sel.Pos()),
+						okText,
+						why+": depending on the order in which the responses are parsed, a result stays cached longer than its smallest TTL / the failure caching time")
+				}
 			}
 		}
 	}
@@ -289,6 +301,51 @@ func expiryMinGuard(fc *FuncCtx, target int, rhs string) bool {
 		}
 	}
 	return len(edges) > 0 && fc.G.EdgeDominates(edges, target)
+}
+
+// expiryMinTaken: from the IsZero test that leads to the store, the statement after the store
+// cannot be reached around the store except over the false edge of expiresAt.After(rhs).
+func expiryMinTaken(fc *FuncCtx, store int, rhs string) (bool, string) {
+	if len(fc.G.V[store].Succs) == 0 {
+		return false, "undecided: the store has no successor"
+	}
+	join := fc.G.V[store].Succs[0].To
+	notAfter := map[Edge]bool{}
+	for _, cv := range fc.G.V {
+		if cv.Kind == VCond && strings.HasSuffix(exprStr(cv.Node), ".expiresAt.After("+rhs+")") {
+			for _, e := range cv.Succs {
+				if e.Label == LFalse {
+					notAfter[e] = true
+				}
+			}
+		}
+	}
+	found := false
+	for _, z := range fc.G.V {
+		if z.Kind != VCond || !strings.HasSuffix(exprStr(z.Node), ".expiresAt.IsZero()") {
+			continue
+		}
+		leads := false
+		for _, e := range z.Succs {
+			if e.Label == LTrue && fc.G.Reach([]int{e.To}, func(v *Vertex) bool { return v.Kind == VCond }, nil)[store] {
+				leads = true
+			}
+		}
+		if !leads {
+			continue
+		}
+		found = true
+		around := fc.G.ReachAfter(z.ID, func(v *Vertex) bool { return v.ID == store || v.ID == z.ID }, func(e Edge) bool { return notAfter[e] })
+		if around[join] {
+			return false, "the store can be passed over although the expiry already set is later than the new value (the comparison with the new value is missing)"
+		}
+	}
+	if !found {
+		// a store that sits deeper inside an `expiry still unset` region (the negative-caching
+		// TTL of an SOA record, used only when no answer set an expiry) is not a minimum update
+		return true, "not a minimum update: applies only while no expiry is set"
+	}
+	return true, ""
 }
 
 func c17R2(p *Prog, r *Report) {
